@@ -8,7 +8,7 @@
    All theorems quantify over all field values and all list lengths (unbounded Z / lists). *)
 From PM.theories Require Import Base Struct PduCls PduSpec Pdu CorrPdu.
 From PM.Generated Require Import GenPdu.
-From PM.proofs Require Import Pdu_bits_proofs Pdu_proofs Pdu_more_proofs Pdu_dec_proofs Pdu_dec2_proofs.
+From PM.proofs Require Import Pdu_bits_proofs Pdu_proofs Pdu_more_proofs Pdu_dec_proofs Pdu_dec2_proofs Pdu_rej_proofs Pdu_size_proofs.
 Open Scope string_scope.
 Open Scope list_scope.
 Open Scope Z_scope.
@@ -95,6 +95,37 @@ Theorem C01_encode_rejects_registers : forall c regs m,
   abs_raw (ORegsRsp c regs) = Some m -> spec_wf m = false -> py_pdu (ORegsRsp c regs) = Raise StructError.
 Proof. exact encode_rejects_regs. Qed.
 Print Assumptions C01_encode_rejects_registers.
+
+(* ... for EVERY class of [conforming_encode]: whenever the object stands for a message that does not fit
+   its wire widths (a 16-/8-bit field out of range, a list too long for its count or byte-count field,
+   a record or object header out of range), the library refuses with struct.error.
+   [payload_ok]: raw byte payloads are real bytes; exception responses are for a function code 1..127 *)
+Theorem C01_encode_rejects_all : forall o m,
+  mem_cls (class_of o) conforming_encode = true -> abs_raw o = Some m -> spec_wf m = false -> payload_ok o = true ->
+  py_pdu o = Raise StructError.
+Proof. exact encode_rejects. Qed.
+Print Assumptions C01_encode_rejects_all.
+
+(* --- sizes: the length of every specification PDU, the 253-byte limit, and that it is attained --- *)
+Theorem C01_pdu_length : forall m, len (spec_pdu m) = pdu_size m.
+Proof. exact spec_pdu_length. Qed.
+Print Assumptions C01_pdu_length.
+
+(* within the quantity / byte-count limits section 6 states, a PDU has 1..253 bytes *)
+Theorem C01_pdu_limit : forall m, spec_limits m = true -> 1 <= len (spec_pdu m) <= 253.
+Proof. exact spec_pdu_limit. Qed.
+Print Assumptions C01_pdu_limit.
+
+Theorem C01_pdu_max_attained :
+  (exists m, msg_is_request m = true /\ spec_limits m = true /\ spec_wf m = true /\ len (spec_pdu m) = 253) /\
+  (exists m, msg_is_request m = false /\ spec_limits m = true /\ spec_wf m = true /\ len (spec_pdu m) = 253).
+Proof. exact spec_pdu_max_attained. Qed.
+Print Assumptions C01_pdu_max_attained.
+
+(* field widths alone (no quantity limits) bound the kinds governed by an 8-bit byte count by 264 bytes *)
+Theorem C01_pdu_wf_bound : forall m, spec_wf m = true -> byte_counted m = true -> len (spec_pdu m) <= 264.
+Proof. exact spec_pdu_wf_bound. Qed.
+Print Assumptions C01_pdu_wf_bound.
 
 (* --- where the pinned code violates the property --------------------------------------------- *)
 (* the full statement (false on this tree; kept visible) *)
